@@ -509,6 +509,7 @@ impl KeyWorld {
         if cfg.cap > 1_000_000 {
             // a huge arena: a few insertions, a clear, then the rest of the short history
             g.forced_clear_at = Some(2 + r.below(4) as usize);
+            g.w[W_CLEAR] = g.w[W_CLEAR].min(1);
             g.fill_target = None;
             g.forest = 0;
             g.pulse = false;
